@@ -6,3 +6,55 @@ package label
 // String only reads the label and builds its result in a local builder.
 //@ func (*label.Label).String
 //@   requires l != nil
+
+// ---------------------------------------------------------------- C12: parsing never crashes
+// Index safety of every string operation in the package (safe:idx / safe:slice obligations are
+// generated for each of them); the contracts below carry the facts those obligations need.
+
+//@ func (*label.lazybuf).append
+//@   requires b != nil
+//@   requires room: 0 <= b.w && b.w < len(b.s)
+//@   requires shape: b.buf != nil ==> len(b.buf) == len(b.s)
+//@   ensures  advanced: b.w == old(b.w) + 1 && b.s == old(b.s)
+//@   ensures  shape: b.buf != nil ==> len(b.buf) == len(b.s)
+//@   modifies b.w, b.buf, heap
+
+//@ func (*label.lazybuf).string
+//@   requires b != nil
+//@   requires in-range: 0 <= b.w && b.w <= len(b.s)
+//@   requires shape: b.buf != nil ==> len(b.buf) == len(b.s)
+
+//@ func (*label.lazybuf).index
+//@   requires b != nil && 0 <= i
+//@   requires in-range: (b.buf != nil ==> i < len(b.buf)) && (b.buf == nil ==> i < len(b.s))
+
+// Clean: r reads pkg, out.w writes; the writer never overtakes the reader, and when it has caught up
+// with it (after the leading "//") the next byte is a separator - which is what makes room for the
+// slash that precedes every further element.
+//@ func label.Clean
+//@   modifies heap
+//@   loop 0: invariant bounds: n == len(pkg) && 0 <= r && r <= n && out.s == pkg && 0 <= out.w && out.w <= r
+//@   loop 0: invariant shape: out.buf != nil ==> len(out.buf) == n
+//@   loop 0: invariant rooted-prefix: rooted ==> (n >= 2 && out.w >= 2)
+//@   loop 0: invariant caught-up: (out.w == r && out.w != ite(rooted, 2, 0)) ==> (r == n || pkg[r] == 47 || pkg[r] == 58)
+//@   loop 1: invariant bounds: n == len(pkg) && 0 <= r && r <= n && out.s == pkg && 0 <= out.w && out.w <= r
+//@   loop 1: invariant shape: out.buf != nil ==> len(out.buf) == n
+//@   loop 1: invariant rooted-prefix: rooted ==> (n >= 2 && out.w >= 2)
+
+//@ func label.Parse
+//@ func label.New
+//@   ensures built: result.1 == nil ==> (result.0 != nil && result.0.Kind == kind && result.0.Project == project && result.0.Name == name)
+//@   ensures name-plain: result.1 == nil ==> (forall i: int :: 0 <= i && i < len(name) ==> (name[i] != 47 && name[i] != 58))
+//@   modifies heap
+//@ func label.Parent
+//@ func label.Dir
+//@ func label.Split
+//@   loop 0: invariant 0 <= i && i <= len(pkg)
+//@   loop 1: invariant 0 <= start && start <= i && i <= len(pkg)
+//@ func label.Join
+//@   loop 0: invariant size >= 0
+//@   loop 1: invariant true
+//@ func (*label.Label).IsAbs
+//@   requires l != nil
+//@ func (*label.Label).RelativeTo
+//@   requires l != nil
